@@ -94,6 +94,40 @@ CLAIMED = {
             ">=66% of the power at that moment, every stored price lies between the lower and upper stake-weighted medians of the validators' latest values, a holder list is adopted only with > 2/3 of stake behind the identical list.",
             "SimStaking double; weighted medians computed with exact stakes and with the module's 2^16 normalisation, the wider interval accepted.",
             "DESIGN.md §4 C18"),
+    "C07": ("exploration",
+            "differential property-based testing (rapid): hub checkpoint vs an independent abi.encode+keccak implementation and vs the real Hub2 bytecode",
+            "Signer sets (0..150 members incl. duplicates), batches (0..100 transfers, amounts up to 2^256-1) and contract calls (payload 0..2048 bytes) with gravity ids of 0..32 bytes and nonces/timeouts/powers over the "
+            "whole uint64 range: GetCheckpoint must equal keccak256 of a from-scratch ABI encoding; a signature made with NewEthereumSignature must validate for its signer and for no other address, digest or recovery id; "
+            "in a third of the cases the real Hub2 contract (constructor checkpoint, updateValset, submitBatch, submitLogicCall) must accept that signature and refuse one over a digest differing in one bit.",
+            "The committed bytecode in solidity/contracts/Hub2.go is taken as the compilation of Hub2.sol (no solc offline); the EVM is go-ethereum's core/vm/runtime.",
+            "DESIGN.md §4 C07"),
+    "C09": ("exploration",
+            "stateful property-based testing (rapid) with exact-rational judgement of every published signer set",
+            "Validator sets of 1..40 validators (all equal, one with 99%, powers 1..2^56, per-chain key subsets) under power changes around the 5% boundary, unbonding, rebonding and key registration; every newly published "
+            "set must contain exactly the bonded validators with a registered key for that chain, powers within one unit of stake*(2^32-1)/total and summing to <= 2^32-1, non-increasing order with a consistent tie-break that "
+            "does not depend on input order, nonce = previous+1; after every BeginBlock a set exists and the latest one differs from the current validator set by <= 5% (20*diff <= 2^32-1).",
+            "SimStaking double with totals below 2^62.",
+            "DESIGN.md §4 C09"),
+    "C14": ("exploration",
+            "metamorphic property-based testing (rapid): sibling events differing in one field, relevance established by execution on twin instances",
+            "For every field of the five event types (and for adjacent variable-length fields shifted across their boundary) a pair of admissible events is generated; both are applied with quorum on twin instances and the pair "
+            "counts only when the resulting state differs; such a pair must have different claim hashes. Nine fields/boundaries the current hashes do not cover are recorded as known findings (open) with witnesses; every other field is searched.",
+            "Relevance is measured on the state outside the vote records; known findings are matched by (event type, field).",
+            "DESIGN.md §4 C14"),
+    "C16": ("exploration",
+            "stateful property-based testing (rapid) against a reference confirmation set, queries compared after every step",
+            "Histories of signer sets, batches, contract calls, executed batches and confirmation messages (unknown tx, tx of another chain, wrong/zero/random claimed signer, validator without key, unbonded, foreign account, "
+            "own and foreign orchestrators, duplicates, after the tx is gone); acceptance must match the reference predicate, a refusal leaves the state hash unchanged, and after every step the three confirmation queries and "
+            "the three unsigned-tx queries must return exactly the reference sets with the address registered at confirmation time.",
+            "Signature bytes are not judged (the statement does not require it). Attribution after key re-registration is a recorded open finding.",
+            "DESIGN.md §4 C16"),
+    "C17": ("exploration",
+            "stateful property-based testing (rapid) with a registry model; invariants and the three lookup queries checked after every step",
+            "Registration sequences over 2..4 validators x 3 chains x small key/orchestrator pools (reuse across validators and chains, re-registration, future/stale nonce, foreign key, signature over another validator, "
+            "corrupted or replayed signature, unknown validator, another validator's own account as orchestrator), with the ante handler's sequence increment emulated; accepted registrations must have a valid signature over "
+            "(validator, sequence-1) and must not take an address or orchestrator currently held by another validator; refusals write nothing; bindings stay injective and consistent across the three indexes; claims sent by an orchestrator are recorded as its validator's vote.",
+            "Transaction-level signature checks are the ante handler's; fresh keys must be accepted (completeness is only required for never-used addresses).",
+            "DESIGN.md §4 C17"),
 }
 
 NOT_YET = "check not built yet in this round (planned in DESIGN.md §4); not claimed until its machinery exists"
